@@ -665,6 +665,22 @@ class ModelsMixin(object):
             if is_intlike(item):
                 self.unsupported("int in bytes")
             self.py_raise(TypeError, "a bytes-like object is required")
+        from .seqs import SMapSeq
+        if isinstance(container, SMapSeq):
+            import hashlib
+            if is_byteslike(item):
+                srt, it = BSEQ, bytes_term(item)
+            elif is_strlike(item):
+                srt, it = STR, str_term(item)
+            elif is_intlike(item):
+                srt, it = z3.IntSort(), int_term(item)
+            else:
+                self.unsupported("membership of %r in a mapped symbolic sequence" % type(item))
+            h = hashlib.sha256(container.key.encode()).hexdigest()[:10]
+            P = z3.Function("member_of_map!%s" % h, RSEQ, srt, z3.BoolSort())
+            self.eng.externals_used.add("`v in [%s for x in <symbolic list>]` abstracted as an uninterpreted "
+                                        "predicate of (list, v)" % container.elt_src)
+            return SBool(P(container.seq.term, it))
         if isinstance(container, range):
             if not is_intlike(item):
                 return False
@@ -745,6 +761,8 @@ class ModelsMixin(object):
             if name == "__contains__":
                 return recv.d.contains(self, args[0])
             self.unsupported("dict_keys.%s on a symbolic dict" % name)
+        if isinstance(recv, (set, frozenset, SymSet)) and name == "issubset":
+            return _m_issubset_method(self, recv, args[0])
         if isinstance(recv, list) and name in self.CONTAINER_METHODS:
             return self.list_method(recv, name, args)
         if isinstance(recv, dict) and name in self.CONTAINER_METHODS:
@@ -1328,6 +1346,9 @@ def _m_dict(ctx, args, kwargs):
 def _m_set(ctx, args, kwargs):
     if not args:
         return set()
+    from .seqs import SMapSeq
+    if isinstance(args[0], SMapSeq):
+        return args[0]
     items = ctx.iter_concrete(args[0])
     if not all(ctx.deep_concrete(i) for i in items):
         return SymSet(items)
@@ -1463,8 +1484,12 @@ def _m_fromhex(ctx, args, kwargs):
 
 
 def _m_issubset_method(ctx, recv, other):
+    from .seqs import SMapSeq
     items = recv.items if isinstance(recv, SymSet) else list(recv)
-    other_items = ctx.iter_concrete(other) if not isinstance(other, SymSet) else other.items
+    if isinstance(other, SMapSeq):
+        other_items = other
+    else:
+        other_items = ctx.iter_concrete(other) if not isinstance(other, SymSet) else other.items
     for x in items:
         if not ctx.truth(ctx.contains(other_items, x)):
             return False
